@@ -604,6 +604,27 @@ func genSession14(c *Chooser) Session {
 		n := []string{"out", "patched"}[c.Int(2)]
 		s.Links = append(s.Links, [2]string{n, fifoMark})
 	}
+	// the name given to -o may lead through a symbolic link to a directory
+	// and back up again: "ws/outlink/../out" with outlink -> ../store/deep is
+	// store/out for the kernel (which follows the link before it looks at
+	// ".."), and ws/out only for who cleans the path as text
+	if len(s.Links) == 0 && c.Chance(1, 12) {
+		long, replaced := "ws/outlink/../out", false
+		for i := range s.Procs {
+			for j, a := range s.Procs[i].Argv {
+				switch {
+				case a == "out":
+					s.Procs[i].Argv[j], replaced = long, true
+				case strings.HasSuffix(a, "=out"):
+					s.Procs[i].Argv[j], replaced = strings.TrimSuffix(a, "out")+long, true
+				}
+			}
+		}
+		if replaced {
+			s.Dirs = append(s.Dirs, "ws", "store", "store/deep")
+			s.Links = append(s.Links, [2]string{"ws/outlink", "../store/deep"})
+		}
+	}
 	// an input may be something whose size stat cannot tell (`jd <(cmd) b`)
 	if c.Chance(1, 12) {
 		s.Links = append(s.Links, [2]string{[]string{an, bn}[c.Int(2)], sizeUnknownMark})
